@@ -480,3 +480,13 @@ package resolver
 //@   assert at call middleware/resolver/dnssec.VerifyRRSIGWithWork#1: revokedKey != nil && arg3 == work && arg0 == revokedKey.Hdr.Name
 //@   assert at mapupdate#1: len(value) == 1 && value[0] == revokedKey
 //@   assert at return#1: !result0 && result1 != nil
+//@
+//@ # ---- C11: an upstream attempt hands its MaxConcurrentQueries slot back on EVERY way out - the early return of an
+//@ # attempt whose lookup was already cancelled as much as the ordinary path - and exactly once (the release is guarded
+//@ # by a flag): the once-only release closure has run by the time the attempt returns, and its receive happens only
+//@ # while the flag is still clear
+//@ func (*Resolver).queryServer
+//@   abstract
+//@   nosafety all pre
+//@   assert at return#1: calls("(*middleware/resolver.Resolver).queryServer$2") >= 1
+//@   assert at return#2: calls("(*middleware/resolver.Resolver).queryServer$2") >= 1
